@@ -15,4 +15,4 @@ package main
 //@   requires g.NC == 0 && !g.OSFailed
 //@   ensures [fails-only-with-the-OS] err == nil || g.OSFailed
 //@   ensures [container] err != nil || !vsFits(g.In, off0) || vsBinContainer(g, uint16(off0))
-//@   modifies g.In, g.NC, g.C0, g.C1, g.C2, g.C3, g.C4, g.C5, g.C6, g.C7, g.C8, g.C9, g.OSFailed
+//@   modifies g.In, g.NC, g.C0, g.C1, g.C2, g.C3, g.C4, g.C5, g.C6, g.C7, g.C8, g.C9, g.OSFailed, g.Trunc
